@@ -184,6 +184,12 @@ def _filesink(d, w, path):
     return None
 
 
+def _exit_or_pass(d, fuse):
+    if fuse >= 1.0:
+        raise ModelProcessorError("SystemExit", incidental=False)
+    return d
+
+
 def _raise_odd(kind):
     raise ModelProcessorError({"unicode_decode": "UnicodeDecodeError", "unicode_encode": "UnicodeEncodeError",
                                "exception_group": "ExceptionGroup", "os_error": "FileNotFoundError",
@@ -255,6 +261,7 @@ _c("FloatTxtFileSaver", "sink", "Float", "Float", [("path", REQ)], lambda d, w, 
 _c("VBadWriter", "op", "Float", "Float", [], _badwrite, created=("declared_only",), fault="undeclared_write")
 _c("VBoom", "op", "Float", "Float", [("fuse", 1.0)], _boom, fault="boom")
 _c("VRaise", "op", "Float", "Float", [("exc", "zero_division")], lambda d, w, exc="zero_division": _raise_odd(exc), fault="raise")
+_c("VBoomExit", "op", "Float", "Float", [("fuse", 1.0)], lambda d, w, fuse=1.0: _exit_or_pass(d, fuse), fault="exit")
 _c("VInterrupt", "op", "Float", "Float", [], _abort, fault="abort")
 _c("VWriteThenBoom", "op", "Float", "Float", [("addend", 1.0)], _write_then_boom, created=("note",), fault="boom_after_write")
 _c("VBadPayloadSrc", "psource", "NoData", "Float", [("seed", 5.0)], _bad_psrc, created=("ps_key",), fault="undeclared_write")
